@@ -124,6 +124,16 @@ rewrite /dkg_gpk /dkg_gsk /dkg_pub big_map scaler_suml.
 by apply: eq_bigr => -[|a cs] _ //=; rewrite scale0r.
 Qed.
 
+(* public aggregation is a function of the final set of public polynomials only *)
+Lemma dkg_agg_pub_forgets (old1 old2 : seq (F * G2)) (mpks : seq (seq G2)) ids :
+  dkg_agg_pub old1 mpks ids = dkg_agg_pub old2 mpks ids.
+Proof. by []. Qed.
+
+Lemma dkg_agg_pub_keys (old : seq (F * G2)) css ids i :
+  i \in ids ->
+  (i, dkg_pub g2 (dkg_sk css i)) \in dkg_agg_pub old [seq dkg_mpk g2 cs | cs <- css] ids.
+Proof. by move=> iin; apply/mapP; exists i => //; rewrite dkg_gpk_at_mpks. Qed.
+
 Lemma dkg_sign_verifies sk m : dkg_verify g2 H e (dkg_pub g2 sk) m (dkg_sign H sk m).
 Proof. by rewrite /dkg_verify /dkg_sign /dkg_pub e_linl e_linr. Qed.
 
